@@ -1,5 +1,6 @@
 import SSDriver.Util
 import SSModel.Glue
+import SSModel.GlueConc
 namespace SS.Drv.C17
 open Lean SS.Glue SS.Drv
 
@@ -18,6 +19,23 @@ def parseOp (j : Json) : Except String OpR := do
   | "extractR" => pure (.extract (← (← jArr a[1]!).toList.mapM jNat))     -- these modules vanish during the scan
   | t => throw s!"bad op {t}"
 
+/-- Step thread `t` until it has popped for module `m` (its glue call is pending). -/
+def untilPopped (st : Static) (c : SS.GlueConc.CState) (t m : Nat) : Nat → SS.GlueConc.CState
+  | 0 => c
+  | f + 1 =>
+    match c.pcs[t]? with
+    | some (.popped m' _ _ _ _ _) => if m' == m then c else untilPopped st (SS.GlueConc.cstep st c t) t m f
+    | _ => untilPopped st (SS.GlueConc.cstep st c t) t m f
+
+/-- Step thread `t` until it is back at `idle` (after having left it) or cannot move (waiting for the lock). -/
+def untilStuck (st : Static) (c : SS.GlueConc.CState) (t : Nat) : Nat → Bool → SS.GlueConc.CState
+  | 0, _ => c
+  | f + 1, left =>
+    match c.pcs[t]? with
+    | some .idle => if left then c else untilStuck st (SS.GlueConc.cstep st c t) t f true
+    | some .wantLock => if c.lock.isSome then c else untilStuck st (SS.GlueConc.cstep st c t) t f true
+    | _ => untilStuck st (SS.GlueConc.cstep st c t) t f true
+
 /-- {"mods":[[id,hasMod,hasBuiltin,modRaises,builtinRaises]...],"ops":[...]} -/
 def handle (j : Json) : Except String String := do
   let mods ← (← jArr (← jField j "mods")).mapM (fun r => do
@@ -26,8 +44,24 @@ def handle (j : Json) : Except String String := do
   let get (m : Nat) : (Nat × Bool × Bool × Bool × Bool) := (mods.find? (·.1 == m)).getD (m, false, false, false, false)
   let st : Static := { hasModGlue := fun m => (get m).2.1, hasBuiltin := fun m => (get m).2.2.1,
                        modRaises := fun m => (get m).2.2.2.1, builtinRaises := fun m => (get m).2.2.2.2 }
-  let ops ← (← jArr (← jField j "ops")).toList.mapM parseOp
-  let g := runOpsR st ops
-  pure (" ".intercalate (g.log.map showEv))
+  match j.getObjVal? "sched" with
+  | .ok sj =>
+    -- several threads: a schedule of macro moves over SS.GlueConc.cstep
+    let n ← jNat (← jField j "threads")
+    let items ← (← jArr sj).toList.mapM (fun r => do
+      let a ← jArr r
+      pure ((← jStr a[0]!), (← jNat a[1]!), (if a.size > 2 then (a[2]!.getNat?.toOption.getD 0) else 0)))
+    let c := items.foldl (fun (c : SS.GlueConc.CState) (it : String × Nat × Nat) =>
+      match it.1 with
+      | "insert" => SS.GlueConc.cmove st c (.insert it.2.1)
+      | "remove" => SS.GlueConc.cmove st c (.remove it.2.1)
+      | "until_popped" => untilPopped st c it.2.1 it.2.2 400
+      | "until_stuck" => untilStuck st c it.2.1 400 false
+      | _ => c) (SS.GlueConc.cinit n)
+    pure (" ".intercalate (c.g.log.map showEv))
+  | .error _ =>
+    let ops ← (← jArr (← jField j "ops")).toList.mapM parseOp
+    let g := runOpsR st ops
+    pure (" ".intercalate (g.log.map showEv))
 
 end SS.Drv.C17
